@@ -1,0 +1,14 @@
+//go:build verif
+
+// Contracts for package maps (compiled only with -tags=verif; checked by /verif/bin/govc).
+package maps
+
+// The per-name mutexes serialise callers; they have no effect on the modelled heap. Trusted: the bodies use sync.Map
+// and reference counting that the engine does not model; mutual exclusion per name is an assumption where it is used.
+//@ func (*MutexMap).Lock(l, name) ()
+//@   trusted
+//@   pure
+
+//@ func (*MutexMap).Unlock(l, name) (err)
+//@   trusted
+//@   pure
